@@ -5,7 +5,7 @@ import itertools
 import dbenv, semcommon as sm
 
 # table -> columns on the wire (Lean's vSchema uses these names)
-TABLE_COLS = {"o": ["id", "n", "name"], "tag": ["id", "label"], "w": ["id", "o_id"], "p": ["id", "a", "s", "o_id", "w_id"],
+TABLE_COLS = {"o": ["id", "n", "name"], "tag": ["id", "label"], "w": ["id", "o_id"], "d": ["id", "number", "title"], "p": ["id", "a", "s", "o_id", "w_id", "dn"],
               "k": ["id", "x", "p_id", "o_id"], "p_tags": ["p_id", "tag_id"]}
 
 def enc_db(db):
@@ -34,31 +34,39 @@ def shapes_db():
     for i, ks in enumerate(kid_sets):
         for j, ow in enumerate(owners if i < 4 else owners[:2]):
             pid += 1
-            p.append({"id": pid, "a": (pid % 4) - 1, "s": ["a", "b", None][pid % 3], "o_id": ow, "w_id": [None, 1, 2, 3][(i + j) % 4]})
+            p.append({"id": pid, "a": (pid % 4) - 1, "s": ["a", "b", None][pid % 3], "o_id": ow, "w_id": [None, 1, 2, 3][(i + j) % 4],
+                      "dn": [None, 2, 10, 3][(pid + i) % 4]})
             for x in ks:
                 kid += 1
                 k.append({"id": kid, "x": x, "p_id": pid, "o_id": [None, 1, 4][kid % 3]})
             for t in [(), (1,), (1, 2), (3,)][(i + 2 * j) % 4]:
                 pt.append((pid, t))
-    return {"o": o, "tag": tag, "w": w, "p": p, "k": k, "p_tags": pt}
+    # departments are referenced through `number` (unique), chosen so that ids and numbers overlap but never coincide: dept id 2 has number 10, number 2 belongs to id 1
+    d = [{"id": 1, "number": 2, "title": "x"}, {"id": 2, "number": 10, "title": None}, {"id": 3, "number": 1, "title": "y"}, {"id": 10, "number": 3, "title": "x"}]
+    return {"o": o, "tag": tag, "w": w, "d": d, "p": p, "k": k, "p_tags": pt}
 
 def random_db(rng, n_p=12):
     o = [{"id": i + 1, "n": rng.choice([None, 5, -1, 0, 5]), "name": rng.choice([None, "x", "y", "O'B"])} for i in range(4)]
     tag = [{"id": i + 1, "label": rng.choice([None, "l", "m"])} for i in range(3)]
     w = [{"id": i + 1, "o_id": rng.choice([None, 1, 2, 3])} for i in range(3)]
     p = [{"id": i + 1, "a": rng.choice([None, -1, 0, 2, 3]), "s": rng.choice([None, "a", "b"]), "o_id": rng.choice([None, 1, 2, 3, 4]),
-          "w_id": rng.choice([None, 1, 2, 3])} for i in range(n_p)]
+          "w_id": rng.choice([None, 1, 2, 3]), "dn": rng.choice([None, 1, 2, 3, 10])} for i in range(n_p)]
+    nums = rng.sample([1, 2, 3, 10], 4)
+    d = [{"id": i + 1 if i < 3 else 10, "number": nums[i], "title": rng.choice([None, "x", "y"])} for i in range(4)]
     k = []
     for pr in p:
         for _ in range(rng.choice([0, 0, 1, 2, 3])):
             k.append({"id": len(k) + 1, "x": rng.choice([0, 2, 2, 7]), "p_id": pr["id"], "o_id": rng.choice([None, 1, 4])})
     pt = sorted({(pr["id"], rng.randint(1, 3)) for pr in p for _ in range(rng.choice([0, 1, 2]))})
-    return {"o": o, "tag": tag, "w": w, "p": p, "k": k, "p_tags": pt}
+    return {"o": o, "tag": tag, "w": w, "d": d, "p": p, "k": k, "p_tags": pt}
 
 # ---------------------------------------------------------------- filter texts (root model P unless stated)
 INT_LEAVES_P = ["a eq 2", "a gt 0", "a ne -1", "a in (0, 3)", "a eq null"]
 PATH_LEAVES_P = ["o/n eq 5", "o/n ne 5", "o/n eq null", "o/n ne null", "o/name eq 'x'", "o/name eq 'O''B'", "o/n gt a", "w/o/label eq 'l'", "w/o/label eq null",
                  "w/o_id eq 1", "o/n lt 0", "w/o/label ne 'm'", "o/name in ('x', 'y')", "o/id eq 3"]
+# through a foreign key that references a natural key (p.dn -> d.number): the parent's PRIMARY key is a different column
+NATKEY_LEAVES_P = ["dept/id eq 2", "dept/id eq 10", "dept/number eq 10", "dept/number eq 2", "dept/title eq 'x'", "dept/id eq null", "dept/id ne 2", "dept/id gt 1",
+                   "dept/emps/any(e: e/a gt 0)", "dept/emps/all(e: e/a ge 0)", "dept/emps/any()", "dept/id eq a", "dept/number eq dept/id"]
 KID_BODIES = ["k/x eq 2", "k/x gt 0", "k/x ne 2", "k/x in (0, 7)", "k/x eq 2 or k/x eq 7", "not (k/x eq 0)", "k/x ge 2 and k/x lt 7"]
 TAG_BODIES = ["t/label eq 'l'", "t/label ne 'm'", "t/label eq null", "t/id gt 1"]
 
